@@ -1,0 +1,7 @@
+//go:build !verif
+
+// Package verifhook: without the build tag verif the hooks are empty functions.
+package verifhook
+
+// Touch does nothing in normal builds.
+func Touch(loc string, obj interface{}, write bool) {}
